@@ -90,7 +90,8 @@ def impl_parse(buf: bytes):
 def section_seqset(ctx) -> None:
     from pymap.parsing.specials.sequenceset import SequenceSet
     rng = ctx.rng
-    n = ctx.scale(1500, 30000)
+    n = ctx.scale(600, 9000)
+    from .C18_strings import INTERESTING, thin
     # --- parse correspondence (+ round-trip monitor on the implementation)
     cases, inputs = [], []
     seen = set()
@@ -100,9 +101,10 @@ def section_seqset(ctx) -> None:
     sweep = []
     for base in (b'1', b'12:3', b'*', b'1,2', b'7:* x'):
         for k in range(len(base) + 1):
-            for c in range(256):
+            for c in (INTERESTING if ctx.quick else range(256)):
                 sweep.append(base[:k] + bytes([c]) + base[k:])
     stream = small + sweep + [gen_seq_bytes(rng) for _ in range(n)]
+    stream = thin(ctx, stream, 2200)
     for buf in stream:
         if buf in seen:
             continue
@@ -136,7 +138,7 @@ def section_seqset(ctx) -> None:
         inputs.append(buf)
     ctx.sample({'seqset_parse_input': inputs[-1].decode('latin-1')})
     bad = ctx.run_cases('seqset_parse', HEADER, 'bytes * option (seqset * bytes)', cases,
-                        'chk_seq_parse')
+                        'chk_seq_parse', shard=1500)
     for i in bad[:5]:
         ctx.disagreement('seqset_parse', {'input': inputs[i].hex(),
                                           'impl': repr(impl_parse(inputs[i]))})
